@@ -157,7 +157,7 @@ class Check:
     def model(self, outname, args, timeout=900):
         # extracted code recurses deeply on long lists: lift the stack limit for the driver
         import shlex
-        cmd = "ulimit -s unlimited 2>/dev/null; exec " + " ".join(shlex.quote(a) for a in
+        cmd = "ulimit -v 4000000 2>/dev/null; exec " + " ".join(shlex.quote(a) for a in
                                                                  [os.path.join(VERIF, "ocaml", "bin", outname)] + list(args))
         return sh(cmd, cwd=self.work, timeout=timeout)
 
